@@ -1430,6 +1430,10 @@ def shards(tier, seed):
         for k in range(n):
             specs.append(dict(part=part, b=_b_pickle(p["b"]), scheme=p["scheme"], opt=p["opt"],
                               k=k, n=n))
+    if not only or "tsan" in only.split(","):
+        # free-running real-thread pass under the ThreadSanitizer build (see mc/tsan_pass.py)
+        for (N, G) in ((3, 2), (4, 1)) if tier == "quick" else ((3, 2), (4, 1), (3, 3), (4, 2)):
+            specs.append(dict(part="tsan", N=N, G=G, b=_b_pickle({})))
     return specs
 
 
@@ -1456,9 +1460,41 @@ def check_case(part, m, placement, opt, acc):
     acc.sample({"part": part, "member": m.desc(), "placement": placement_desc(placement)[:2]})
 
 
+def tsan_pass(spec, acc):
+    """Free-running pass of the threaded statistics under the ThreadSanitizer build (see mc/tsan_pass.py)."""
+    import os
+    import re
+    import subprocess
+
+    from .. import build as B
+
+    case = {"kind": "tsan", "N": spec["N"], "G": spec["G"]}
+    acc.enter(case)
+    env = dict(os.environ)
+    env.update(B.sanitizer_env("tsan"))
+    env.pop("VERIF_BUILD_DIR_PLAIN", None)
+    r = subprocess.run([B.PY, "-m", "mc.tsan_pass", str(spec["N"]), str(spec["G"])], cwd=B.VERIF, env=env,
+                       capture_output=True, text=True, timeout=1200)
+    m = re.search(r"TSAN-PASS-DONE (\d+)", r.stdout)
+    calls = int(m.group(1)) if m else 0
+    acc.ev(max(calls, 1), nontrivial=calls > 0)
+    acc.count("tsan_threaded_calls", calls)
+    races = re.findall(r"WARNING: ThreadSanitizer: data race.*?(?=\n\n|\Z)", r.stderr, flags=re.S)
+    ours = [x for x in races if "/c/tskit/" in x or "_tskitmodule" in x or "kastore" in x]
+    for x in ours[:3]:
+        fn = re.search(r"#0 (\w+) ", x)
+        acc.fail("tsan:data_race:" + (fn.group(1) if fn else "unknown"), x[:1500], case)
+    if not m:
+        acc.fail("tsan:pass_failed", (r.stdout + r.stderr)[-1500:], case)
+    acc.sample({"tsan_pass": case, "threaded_calls": calls, "race_reports_in_tskit": len(ours)})
+
+
 def run_shard(spec):
     acc = Acc()
     part = spec["part"]
+    if part == "tsan":
+        tsan_pass(spec, acc)
+        return acc.result()
     b = _b_unpickle(spec["b"])
     if part == "dist":
         check_dist(dict(spec, b=b), acc)
@@ -1474,6 +1510,10 @@ def run_shard(spec):
 
 
 def replay(case):
+    if case.get("kind") == "tsan":
+        acc = Acc()
+        tsan_pass(case, acc)
+        return acc.failures
     acc = Acc()
     m = U.Member.from_desc(case["member"])
     if case["part"] == "dist":
